@@ -511,6 +511,52 @@ func checkC06(p *Prog, r *Report) {
 			}
 		}
 	}
+	// ---- R6.10 one spelling per transport address -------------------------------------------------------------------
+	r.Rule("R6.10", "The address string of a peer-reflexive remote candidate is the canonical (unmapped) form of the source address, canonicalAddr(...).String(): transport-address equality compares these strings, so an IPv4-mapped source must not be stored as '::ffff:a.b.c.d' next to the signalled 'a.b.c.d' (two candidates and two pairs for one transport address).", 1)
+	if f := p.Fn("Agent.handleInboundRequest"); r.Anchor("Agent.handleInboundRequest", f != nil) {
+		n, ok := 0, true
+		var rec func(g *Func)
+		rec = func(g *Func) {
+			walkBody(g, func(x ast.Node) bool {
+				var val ast.Expr
+				switch y := x.(type) {
+				case *ast.KeyValueExpr:
+					if p.keyIsField(y.Key, "CandidatePeerReflexiveConfig.Address") {
+						val = y.Value
+					}
+				case *ast.AssignStmt:
+					for i, l := range y.Lhs {
+						if p.IsField(l, "CandidatePeerReflexiveConfig.Address") && len(y.Lhs) == len(y.Rhs) {
+							val = y.Rhs[i]
+						}
+					}
+				}
+				if val == nil {
+					return true
+				}
+				n++
+				canon := false
+				for _, cn := range p.callsFeeding(g, val, 0, map[types.Object]bool{}) {
+					if cn == "ice.canonicalAddr" {
+						canon = true
+					}
+				}
+				if !canon {
+					ok = false
+				}
+				return true
+			})
+			for _, l := range g.Lits {
+				rec(l)
+			}
+		}
+		rec(f)
+		r.Check(ok && n > 0, "peer-reflexive candidate address is canonical", p.Pos(f.Body.Pos()), "Address: canonicalAddr(remote.Addr()).String()", "the peer-reflexive candidate's address string is not derived from canonicalAddr: for an IPv4-in-IPv6 source it differs from the signalled candidate's spelling, the prflx candidate is not superseded and the transport-address pair is listed twice under two ids")
+	}
+
+	// ---- R6.9 nothing is sent for a generation that was just wiped -----------------------------------------------
+	r.Rule("R6.9", "In the check tick, a round that fails the agent (initial checking deadline) ends there: the selector is not asked to contact candidates after the Failed wipe in the same task, so no request of the wiped generation is recorded as outstanding (table shared with C04 R4.5).", 6)
+	checkTickDiscipline(p, r)
 }
 
 // pairIsListed: e derives from findPair/addPair, a checklist element, the
